@@ -20,6 +20,8 @@ TrEpoch == /\ IsEvent("Epoch") /\ Consume
               THEN (IF l = 1 THEN cell' = CellsOf(Ev) ELSE cell' = cell /\ CellsOf(Ev) = cell)
               ELSE cell' = cell
            /\ UNCHANGED <<w, r, pend>>
+(* a "TryBlocked" event (the driver's watchdog: a trylock has not returned although the lock was held all the time) is explained by no action:
+   trylock never blocks *)
 TNext == TrCall \/ DoLin \/ TrRet \/ TrCs \/ TrEpoch
 TSpec == TInit /\ [][TNext]_tv
 ====
